@@ -293,6 +293,7 @@ M("C18", "c18_lite_tx_projection", ["saito_core::core::consensus::block::Block::
 
 M("C18", "c18_lite_block_keeps_listed", ["Block::generate_lite_block (whole function: projection closure, placeholder merging loop, header copy)"], "blocks of 2..=3 transactions (thorough 4), one input and one output each, owner keys / types / signatures symbolic, one listed key", covers=2)
 M("C18", "c18_placeholder_wire_roundtrip", ["Transaction::serialize_for_net_with_hop", "Transaction::deserialize_from_net"], "same as c09_m_tx_roundtrip (txs_replacements among the compared fields)", covers=4)
+M("C18", "c18_generate_ordinals_count_placeholders", ["Block::generate"], "blocks of 1..=3 transactions (thorough 4), transaction types and txs_replacements (<= 2^20) symbolic; Transaction::generate replaced by a recorder of its ordinal argument; merkle root / hashing not entered", covers=3)
 # ============================================================================== C14
 PROPERTY_ASSUMPTIONS["C14"] = [
     "inductive steps from a pool satisfying Inv (utxo_map holds exactly the inputs of the pooled transactions; pooled transaction = 1 with 1..=2 inputs), routing work and fees within the token supply; async bodies with every poll Ready",
